@@ -219,6 +219,13 @@ def run_case(concepts, case, spec):
                 call(list, g)
         COL.count('session_requeries')
     POOL.add(ctx)
+    if len(ctx.objects) <= 12 and len(ctx.properties) <= 12 and sl.n <= 200:
+        common.interference(concepts, ctx, common.get_lattice(ctx), rng, 15)
+        for fn in (alg.fast_generate_from, alg.fcbo_dual, alg.get_concepts):
+            g = call(fn, ctx)
+            if g is not RAISED:
+                call(list, g)
+        COL.count('asked_again_after_interference')
     # cross-check with context.lattice (driver side, C03 judges the lattice itself)
     if case.get('deep') or case['fam'].startswith('REPEATED'):
         # Lindig on a 1 000-chain or on hundreds of repeated rows takes minutes: generators only
